@@ -31,6 +31,10 @@ func (rg *rootGeneratorSimple) generate() ([]*Node, error) {
 	)
 
 	for rg.scanner.Scan() {
+		if err := rg.scanner.Err(); err != nil {
+			// the reader has failed: the rest of the buffer may be a torn line
+			return nil, err
+		}
 		currentNode, err := rg.nodeGenerator.generate(rg.scanner.Text(), rg.counter.next())
 		if err != nil {
 			return nil, err
@@ -65,6 +69,11 @@ func (rg *rootGeneratorSimple) generateIter() func(yield func(*Node, error) bool
 
 	return func(yield func(*Node, error) bool) {
 		for rg.scanner.Scan() {
+			if err := rg.scanner.Err(); err != nil {
+				// the reader has failed: the rest of the buffer may be a torn line
+				yield(nil, err)
+				return
+			}
 			currentNode, err := rg.nodeGenerator.generate(rg.scanner.Text(), rg.counter.next())
 			if err != nil {
 				yield(nil, err)
